@@ -492,7 +492,7 @@ class Flow:
                 preset[p_] = self.ev(defaults[p_]) if isinstance(defaults[p_], ast.Constant) else None
                 if preset[p_] is None:
                     return None
-        sub = Flow(callee, self.file, keep_arms=False, resolver=self.resolver, _depth=self._depth + 1, _env=preset)
+        sub = Flow(callee, self.file, keep_arms=False, resolver=self.resolver, _depth=self._depth + 1, _env=preset, consts=self.consts)
         rets = [(f.value, list(f.guards)) for f in sub.facts if f.kind == "return"]
         if not rets or any(f.kind in ("store", "augstore", "attrstore", "append", "mutate") for f in sub.facts):
             return None
